@@ -1040,13 +1040,11 @@ impl Meta {
 
 impl Prop for Meta {
     fn cases(&self, tier: Tier) -> u64 {
-        let q = match self.id {
-            "C13" => 2_400,
-            _ => 60_000,
-        };
-        match tier {
-            Tier::Quick => q,
-            Tier::Thorough => q * 40,
+        match (self.id, tier) {
+            ("C13", Tier::Quick) => 6_000,
+            ("C13", Tier::Thorough) => 96_000,
+            (_, Tier::Quick) => 150_000,
+            (_, Tier::Thorough) => 2_400_000,
         }
     }
 
